@@ -7,7 +7,7 @@ import PtProofs.AnalysisLemmas
 namespace Pt
 
 section T
-variable {sel : String → String → Bool} {relabel : NodeData → String × List String}
+variable {sel : String → String → Bool} {relabel : NodeData → NodeData}
 
 theorem tstep_cases (s : TState) (i : Nat) :
     (∃ j, tstep sel relabel s i = { s with map := (i, j) :: s.map })
@@ -120,9 +120,8 @@ theorem mapKids_id {sel : String → String → Bool} {s : TState} (nd : NodeDat
 
 theorem candidate_id {sel : String → String → Bool} {s : TState} (i : Nat)
     (hd : ∀ p, p ∈ s.map → p.1 = p.2) : candidate sel relabelId s i = s.heap.node i := by
-  unfold candidate
+  unfold candidate relabelId
   rw [mapKids_id _ hd]
-  rfl
 
 theorem tstep_id {sel : String → String → Bool} {h : Heap} {s : TState} {done : List Nat}
     (i : Nat) (hinv : IdInv h s done) (hi : i ∉ done)
